@@ -1,0 +1,142 @@
+//go:build verif
+
+package certmagic
+
+// Verification hooks (build tag "verif" only) for the certificate cache: constructors for
+// Certificate values with chosen internal fields, a snapshot of both cache maps, and thin
+// exported wrappers around the unexported cache operations and the maintenance functions
+// that write copies back into the cache. No existing code is changed.
+
+import (
+	"context"
+	"crypto/tls"
+	"math/big"
+	"net"
+	"sort"
+
+	"github.com/mholt/acmez/v3/acme"
+	"go.uber.org/zap"
+	"golang.org/x/crypto/ocsp"
+)
+
+// VerifCertInfo is the abstract view of a Certificate: the fields the cache logic reads,
+// plus two markers standing for the OCSP response and the renewal information.
+type VerifCertInfo struct {
+	Hash       string
+	Names      []string
+	Managed    bool
+	IssuerKey  string
+	Tags       []string
+	OCSPSerial int64  // 0: no OCSP response attached; otherwise its SerialNumber
+	ARIURL     string // ari.ExplanationURL
+}
+
+// VerifMakeCert builds a Certificate from info. tlsCert (possibly empty) provides the chain
+// and Leaf; Names and hash are taken from info, not derived from the leaf. A non-zero
+// OCSPSerial attaches an OCSP response with zero ThisUpdate/NextUpdate (i.e. not fresh).
+func VerifMakeCert(info VerifCertInfo, tlsCert tls.Certificate) Certificate {
+	c := Certificate{
+		Certificate: tlsCert,
+		Names:       append([]string(nil), info.Names...),
+		Tags:        append([]string(nil), info.Tags...),
+		hash:        info.Hash,
+		managed:     info.Managed,
+		issuerKey:   info.IssuerKey,
+	}
+	if info.OCSPSerial != 0 {
+		c.ocsp = &ocsp.Response{SerialNumber: big.NewInt(info.OCSPSerial)}
+	}
+	c.ari = acme.RenewalInfo{ExplanationURL: info.ARIURL}
+	return c
+}
+
+// VerifInfo returns the abstract view of cert.
+func VerifInfo(cert Certificate) VerifCertInfo {
+	info := VerifCertInfo{
+		Hash:      cert.hash,
+		Names:     append([]string(nil), cert.Names...),
+		Managed:   cert.managed,
+		IssuerKey: cert.issuerKey,
+		Tags:      append([]string(nil), cert.Tags...),
+		ARIURL:    cert.ari.ExplanationURL,
+	}
+	if cert.ocsp != nil {
+		info.OCSPSerial = -1
+		if cert.ocsp.SerialNumber != nil {
+			info.OCSPSerial = cert.ocsp.SerialNumber.Int64()
+		}
+	}
+	return info
+}
+
+// VerifSnapshot returns the contents of both cache maps: the cached certificates keyed and
+// sorted by map key, and a copy of the name index.
+func (certCache *Cache) VerifSnapshot() (keys []string, certs []VerifCertInfo, index map[string][]string) {
+	certCache.mu.RLock()
+	defer certCache.mu.RUnlock()
+	for k := range certCache.cache {
+		keys = append(keys, k)
+	}
+	sort.Strings(keys)
+	for _, k := range keys {
+		certs = append(certs, VerifInfo(certCache.cache[k]))
+	}
+	index = make(map[string][]string, len(certCache.cacheIndex))
+	for n, hs := range certCache.cacheIndex {
+		index[n] = append([]string{}, hs...)
+	}
+	return
+}
+
+// VerifReset empties both cache maps.
+func (certCache *Cache) VerifReset() {
+	certCache.mu.Lock()
+	certCache.cache = make(map[string]Certificate)
+	certCache.cacheIndex = make(map[string][]string)
+	certCache.mu.Unlock()
+}
+
+// VerifCacheCertificate exposes cacheCertificate.
+func (certCache *Cache) VerifCacheCertificate(cert Certificate) { certCache.cacheCertificate(cert) }
+
+// VerifRemoveCertificate calls removeCertificate under the write lock, the way maintain.go and
+// handshake.go do.
+func (certCache *Cache) VerifRemoveCertificate(cert Certificate) {
+	certCache.mu.Lock()
+	certCache.removeCertificate(cert)
+	certCache.mu.Unlock()
+}
+
+// VerifReplaceCertificate exposes replaceCertificate.
+func (certCache *Cache) VerifReplaceCertificate(oldCert, newCert Certificate) {
+	certCache.replaceCertificate(oldCert, newCert)
+}
+
+// VerifGetAllMatchingCerts exposes getAllMatchingCerts (exact index lookup).
+func (certCache *Cache) VerifGetAllMatchingCerts(subject string) []Certificate {
+	return certCache.getAllMatchingCerts(subject)
+}
+
+// VerifUpdateOCSPStaples exposes updateOCSPStaples.
+func (certCache *Cache) VerifUpdateOCSPStaples(ctx context.Context) { certCache.updateOCSPStaples(ctx) }
+
+// VerifHandshakeMaintenance exposes handshakeMaintenance.
+func (cfg *Config) VerifHandshakeMaintenance(ctx context.Context, hello *tls.ClientHelloInfo, cert Certificate) (Certificate, error) {
+	return cfg.handshakeMaintenance(ctx, hello, cert)
+}
+
+// VerifUpdateARI exposes updateARI.
+func (cfg *Config) VerifUpdateARI(ctx context.Context, cert Certificate) (Certificate, bool, error) {
+	return cfg.updateARI(ctx, cert, zap.NewNop())
+}
+
+// VerifNameFromClientHello exposes getNameFromClientHello.
+func (cfg *Config) VerifNameFromClientHello(hello *tls.ClientHelloInfo) (string, error) {
+	return cfg.getNameFromClientHello(hello)
+}
+
+// VerifLocalIPFromConn exposes localIPFromConn.
+func VerifLocalIPFromConn(c net.Conn) string { return localIPFromConn(c) }
+
+// VerifNormalizedName exposes normalizedName.
+func VerifNormalizedName(serverName string) string { return normalizedName(serverName) }
